@@ -56,7 +56,8 @@ func (cr *CheckRun) CheckJSON(entries []CorpusEntry) {
 		for _, f := range job.Em.W.Functions() {
 			switch f.Name() {
 			case "MarshalJSON", "UnmarshalJSON", "marshalJSONInnerBody", "unmarshalJSONInnerBody":
-				if f.Parent() == nil && job.Em.W.Contracts[f.String()] == nil && job.Em.W.IsModule(f) {
+				ct := job.Em.W.Contracts[f.String()]
+				if f.Parent() == nil && (ct == nil || !strings.HasPrefix(ct.Options["family"], "json-")) && job.Em.W.IsModule(f) && f.Signature.Recv() != nil && !strings.Contains(f.String(), "Maybe") && !strings.Contains(f.String(), "Nullable") {
 					cr.Note("%s: %s is not under contract (oneOf / custom / primitive component or array decoding)", job.Em.Entry.Name, relName(f))
 				}
 			}
